@@ -33,7 +33,15 @@ def mirror(name):
 
 
 def run(req):
-    return MIRRORS[req["mirror"]](req["model"], req.get("extra") or {})
+    extra = req.get("extra") or {}
+    try:
+        return MIRRORS[req["mirror"]](req["model"], extra)
+    except Exception as e:  # pylint: disable=broad-except
+        if extra.get("no_exception"):
+            import traceback
+
+            return {"confirmed": True, "exception": repr(e), "where": traceback.format_exc().strip().splitlines()[-4:]}
+        raise
 
 
 @mirror("compare")
@@ -878,7 +886,12 @@ def _corpus(model, extra):
             continue
         for facts in factsets:
             n += 1
-            a, b = models(prg, facts), models(new, facts)
+            a = models(prg, facts)
+            try:
+                b = models(new, facts)
+            except RuntimeError as e:
+                problems.append({"program": prg, "facts": facts, "optimised": new, "error": "the result does not ground: " + repr(e)})
+                break
             if a != b:
                 problems.append({"program": prg, "facts": facts, "optimised": new, "source_answer_sets": len(a), "result_answer_sets": len(b), "first_difference": [x for x in a if x not in b][:1] + [x for x in b if x not in a][:1]})
                 break
@@ -1028,6 +1041,8 @@ def _pos_heads(stm):
 
 
 DETECT_PROGRAMS = [
+    "reach(X) :- start(X). reach(Y) :- reach(X), edge(X,Y). wall(X,Y) :- wall(Y,X). :- wall(X,Y), reach(X). sym(X,Y) :- sym(Y,X). sym(X,Y) :- base(X,Y). #show reach/1.",
+    "{a(X) : b(X)} :- c. a(X) :- a(X), d(X). e(X) ; f(X) :- g(X). f(X) :- f(X). #sum{1,X : h(X) : i(X)} <= 1 :- j. h(X) :- h(X), k. #show t(X) : h(X), not f(X).",
     "a(X) :- b(X), not c(X). {d(X) : e(X)} :- f. g(X) ; h(X) :- i(X). #sum{1,X : j(X) : k(X)} <= 2 :- l. :- m(X), X = #sum{Y : n(X,Y)}. #minimize{X : o(X)}. :~ p(X). [X] #show q/1. #show t(X) : r(X), not s(X). #show u/2.",
     "a :- a. b :- c, b. d(X) :- e(X), 1 {f(X,Y) : g(Y)}. h :- not not i, j : k. -l(X) :- m(X). n :- -l(1). #show n/0.",
     "a(X) :- b(X), X = #max{Y : c(Y) ; Z : d(Z), not e(Z)}. {f(X)} :- a(X). :- f(X), g(X). #show f/1. #show h : f(_).",
@@ -1089,6 +1104,11 @@ def _auto_detect_output(model, extra):
 
 
 EXTRA_NO_EXCEPTION = [
+    "{ a; 1 < 2 }. b ; 2 > 1 :- a. #show a/0.",
+    "{p(X,W) : w(W)} 1 :- d(X). d(1). w(1..3). #minimize{ W,x : p(1,W) }. #show p/2.",
+    ":- #sum{ 1,X,Y : p(1,X), p(1,Y), X != Y } > 2. {p(1,1..4)}. #show p/2.",
+    ":- #sum{ : p(X)} > 1. {p(1..2)}. #show p/1.",
+    "p(1..3). { q(X) : p(X) } #sup. #inf { r(X) : p(X) } 1. :- q(1), q(2). #show q/1.",
     "{p(1..2)}. a :- #min{X : p(X)}. b :- #sum{1,X : p(X)}. :- #count{X : p(X)}. #show a/0.",
     "q(1..2). {p(G,1..3)} 1 :- q(G). a(S) :- S = #sum{ X,x : p(_,X) }. #show a/1.",
     "{b(1..2)}. #sum{1,X : a(X) : b(X)} <= 1. #count{X : c(X) : b(X)} >= 1. #show a/1.",
@@ -1117,3 +1137,36 @@ def _corpus_no_exception(model, extra):
 
                 return {"confirmed": True, "bounded": True, "program": prg, "traits": traits, "exception": repr(e), "where": traceback.format_exc().strip().splitlines()[-3:]}
     return {"confirmed": False, "bounded": True, "bound": f"{n} (program, trait selection) pairs"}
+
+
+@mirror("domain_predicate_names")
+def _domain_predicate_names(model, extra):
+    """black-box: request sequences against freshness / memoisation of DomainPredicates' name factory"""
+    import itertools
+
+    from ngo.dependency import DomainPredicates
+    from ngo.utils.ast import Predicate
+    from ngo.utils.globals import UniqueNames
+
+    base = {Predicate("__dom_p", 2), Predicate("__dom_p1", 1), Predicate("p", 1), Predicate("p", 2), Predicate("__min_0_0p", 1)}
+    reqs = [("__dom_p", 1), ("__dom_p", 2), ("__dom_p", 3), ("__dom_q", 1), ("__min_0_0p", 1), ("__min_0_0p", 2)]
+    problems = []
+    for seq in itertools.product(reqs, repeat=3):
+        un = UniqueNames([], [])
+        un.predicates = set(base)
+        dp = DomainPredicates(un, [])
+        seen = {}
+        for name, ar in seq:
+            r = dp._predicate(name, ar)  # pylint: disable=protected-access
+            if (name, ar) in seen:
+                if r != seen[(name, ar)]:
+                    problems.append(f"{seq}: request {(name, ar)} answered {seen[(name, ar)]} and then {r}")
+                continue
+            if r in base or r in seen.values():
+                problems.append(f"{seq}: request {(name, ar)} returned {r}, which is already in use")
+            if r.arity != ar:
+                problems.append(f"{seq}: request {(name, ar)} returned arity {r.arity}")
+            seen[(name, ar)] = r
+        if problems:
+            return {"confirmed": True, "bounded": True, "problems": problems[:3]}
+    return {"confirmed": False, "bounded": True, "bound": f"all request sequences of length 3 over {reqs}"}
